@@ -617,7 +617,7 @@ def check_model(chk: harness.Check, name: str, text: str, rng: Any, n_instances:
             if not instances.all_invariants_hold(pm, inst):
                 chk.count("instances_failing_independent_recheck")
                 continue
-            strings = xschema.strings_in(inst)
+            strings = xschema.strings_in(inst, pm)
             if not all(xschema.is_xml_text(s) for s in strings):
                 chk.count("instances_skipped_not_xml_text")
                 continue
